@@ -23,12 +23,7 @@ pub const ASSUMPTIONS: &[&str] = &[
 /// has just tied to the PEG reading): Stream (plain / boxed), arrays, mapped token-span inputs, IterInput, IoInput,
 /// with_context, map_span
 fn kinds_case(g: &G, toks: &[char], seed: u64, l: &mut Local) -> CaseRes {
-    super::c10::check_inner("rand", g, toks, seed, l).map_err(|(mut c, f)| {
-        c.prop = ID.into();
-        c.sub = "kinds".into();
-        c.extra = serde_json::json!({ "gap_seed": seed });
-        (c, Fail::new(f.sig.replace("C10/", "C01/input-kind/"), f.msg))
-    })
+    super::common::kinds_case(ID, g, toks, seed, l)
 }
 
 pub fn check_case(case: &Case, l: &mut Local) -> Result<(), Fail> {
